@@ -1,35 +1,36 @@
 #!/usr/bin/env python3
 """Regenerate /verif/MANIFEST.json from the table below and the property modules that exist."""
 import json, os, subprocess
-V = "/verif"
+V = os.path.dirname(os.path.dirname(os.path.abspath(__file__)))
 props = [json.loads(l) for l in open(f"{V}/properties.jsonl")]
-ENGINE_OF = {"C08": "crashsim", "C09": "threadsim", "C10": "threadsim+seqsim", "C13": "threadsim", "C14": "threadsim", "C19": "warmsim"}
+ENGINE_OF = {"C07": "seqsim+threadsim", "C08": "crashsim", "C09": "threadsim", "C10": "threadsim+seqsim", "C11": "seqsim+threadsim", "C13": "threadsim", "C14": "threadsim", "C19": "warmsim"}
 LEVEL = {
  "C01": ("exploration", "Seeded search (fixed run counts per tier) over operation sequences x nesting depth x all 18 concrete classes with an independent backend observer and an executable reference model; a clean batch is evidence for the explored traces, not proof.", "§3 C01"),
- "C02": ("exploration", "Seeded histories with an outside writer and several handles; every read compared with the observer's view; sampling, not proof.", "§3 C02"),
+ "C02": ("exploration", "Seeded histories with an outside writer and several handles; every read compared with the observer's view; a fault-injecting share (I/O error inside a read: it may raise, never return stale data); sampling, not proof.", "§3 C02, §7.6"),
  "C03": ("exploration", "Differential execution of seeded operation sequences against built-in dict/list (results, exception classes, content, backend). No schedule/fault dimension exists for this property; the simulator contributes world, model, search and shrinking only.", "§3 C03"),
  "C04": ("exploration", "Seeded sequential multi-handle histories against one shared plain model with a stale-handle probe that must be non-zero.", "§3 C04"),
  "C05": ("exploration", "Seeded traces with arbitrary context nesting, two capacity configurations, file-untouched witness (bytes/inode/mtime/listing) and model equality.", "§3 C05"),
  "C06": ("exploration", "Seeded histories over k>=2 objects on one file in a common buffered state with all read/write assignments and exit orders.", "§3 C06"),
- "C07": ("exploration", "Seeded histories with outside-writer conflicts placed before/after first buffered access on modified/read-only/untouched files, both context kinds, forced flushes.", "§3 C07"),
+ "C07": ("exploration", "Seeded histories with outside-writer conflicts placed before/after first buffered access on modified/read-only/untouched files, both context kinds, forced flushes (set_buffer_capacity, nested buffer_backend entry, capacity restore at an inner exit, inside an operation on another file), unusual prior capacities; plus a threaded part: the flush at the exit of obj.buffered next to an unbuffered writer of the same class on another thread under seeded schedules.", "§3 C07, §7.6"),
  "C08": ("fault_enumeration", "For each sampled save/flush EVERY crash state is enumerated (each executed library line, each file operation, each prefix of the bytes handed to write()); saves and contents are sampled by seed; a sample of predicted crash states is validated against real os._exit kills.", "§2.6, §3 C08"),
  "C09": ("exploration", "Seeded schedules (random / PCT-style / single pre-emption) of real threads under a baton scheduler with pre-emption at every executed library line and lock operation; exact linearizability check of each history (<=9 ops).", "§2.5, §3 C09"),
  "C10": ("fault_enumeration", "Leak half: for each sampled operation every seam call index (open/read/write/close/replace/stat/dumps/loads) is enumerated as a fault point, plus corrupt resource and rejected input; oracle: no simulated lock owned after return/raise and a second simulated thread completes. Deadlock half: seeded schedules with wait-for-cycle detection.", "§3 C10"),
- "C11": ("exploration", "Seeded (entry point x position x invalid kind x depth) after random prefixes; memory and backend walks; no schedule/fault dimension beyond rejected_input.", "§3 C11"),
+ "C11": ("exploration", "Seeded (entry point x position x invalid kind x depth) after random prefixes; memory and backend walks; plus a threaded scan: every single pre-emption between a valid and a rejected operation on two files (validation and type classification are shared by all threads).", "§3 C11, §7.6"),
  "C12": ("exploration", "Exhaustive small JSON values (<=3 nodes over an 11-leaf alphabet) plus seeded random/boundary values x entry points x classes, read back by a fresh object after a simulated restart.", "§3 C12"),
  "C13": ("exploration", "Seeded schedules of threads mutating inside buffer_backend(capacity) for capacities {huge,0,1,~1 doc,~2 docs}; per-file linearizability of final contents, no buffer errors, size back to 0.", "§3 C13"),
  "C14": ("exploration", "Seeded schedules of reader threads next to writer threads; linearizability including read values; listed open findings (same-object readers) are excluded by generator constraints and replayed as witnesses.", "§3 C14"),
- "C15": ("exploration", "Seeded traces with capacity changes and small capacities; size/capacity oracles after every step incl. exact recomputation from the buffered set.", "§3 C15"),
+ "C15": ("exploration", "Seeded traces with capacity changes and small capacities; size/capacity oracles after every step incl. exact recomputation from the buffered set; fault-injecting shares: I/O errors in context exits and inside buffered operations, objects dropped + garbage collection inside backend-wide contexts.", "§3 C15, §7.6"),
  "C16": ("exploration", "Seeded traces in which the simulated user mutates every container it passed in or got back; no schedule/fault dimension.", "§3 C16"),
  "C17": ("exploration", "Seeded read-only traces incl. context enter/exit on existing and missing resources; witnesses: audit events, inode/mtime/bytes, directory listing, stub write counters.", "§3 C17"),
  "C18": ("exploration", "Non-perturbing family walk after every step of seeded traces + attribute/item twin programs over protected/internal/method/dunder keys.", "§3 C18"),
- "C19": ("exploration", "Seeded warm-up histories (orderings/subsets of a pool of diverse types) vs. the outcome in a restarted process (type memo cleared and cross-checked against a fresh fork).", "§2.7, §3 C19"),
+ "C19": ("exploration", "Seeded warm-up histories (orderings/subsets of a pool of diverse types incl. multi-category, proxy and transient classes; long histories of rejected values; attempts with a nearly exhausted call stack) vs. the outcome of the same probe in a freshly forked process that handled nothing.", "§2.7, §3 C19, §7.6"),
 }
 TECH = {"seqsim": "deterministic simulation: seeded operation/fault traces vs executable reference model, independent backend observer",
         "threadsim": "deterministic simulation: baton-scheduled real threads, seeded schedules, linearizability checker, deadlock detection",
         "crashsim": "deterministic simulation: crash-state enumeration of every save (snapshots at each line/file op/write prefix), validated by real kills",
         "warmsim": "deterministic simulation: seeded warm-up histories vs restarted process",
-        "threadsim+seqsim": "deterministic simulation: fault-point enumeration at I/O seams + baton-scheduled threads with wait-for-cycle detection"}
+        "threadsim+seqsim": "deterministic simulation: fault-point enumeration at I/O seams + baton-scheduled threads with wait-for-cycle detection",
+        "seqsim+threadsim": "deterministic simulation: seeded operation/fault traces vs executable reference model with an independent backend observer + baton-scheduled real threads under seeded / enumerated schedules"}
 checks, na = [], []
 for p in props:
     pid = p["id"]
@@ -46,7 +47,7 @@ for p in props:
 engines = [
  {"name": "seqsim", "path": "sim/engines/seqsim.py", "serves_properties": [c["property_id"] for c in checks if "seqsim" in c["engine"]], "kind_free_text": "single-caller operation/fault traces, reference model, outside writer, restart"},
  {"name": "threadsim", "path": "sim/engines/threadsim.py", "serves_properties": [c["property_id"] for c in checks if "threadsim" in c["engine"]], "kind_free_text": "baton-scheduled real threads, seeded scheduler, linearizability"},
- {"name": "crashsim", "path": "sim/engines/crashsim.py", "serves_properties": [c["property_id"] for c in checks if c["engine"] == "crashsim"], "kind_free_text": "crash states of every save"},
+ {"name": "crashsim", "path": "sim/props/c08.py", "serves_properties": [c["property_id"] for c in checks if c["engine"] == "crashsim"], "kind_free_text": "crash states of every save"},
  {"name": "warmsim", "path": "sim/engines/warmsim.py", "serves_properties": [c["property_id"] for c in checks if c["engine"] == "warmsim"], "kind_free_text": "process-history / restart equivalence"}]
 fixes = subprocess.run(["git", "-C", "/repo", "log", "--format=%h %s", "b7c0952..HEAD"], capture_output=True, text=True).stdout.strip().splitlines()
 m = {"version": 1, "setup_cmd": "./check setup",
